@@ -38,6 +38,8 @@ type c17Cert struct {
 	serial *big.Int
 	cert   []byte
 	pub    []byte
+	cert2  []byte // another certificate for the same owner and serial
+	pub2   []byte
 }
 
 var c17Once sync.Once
@@ -99,7 +101,12 @@ func c17Init() {
 					vsNote(fmt.Sprintf("serial %s not producible by crypto/x509: %v", s, err))
 					continue
 				}
-				c17Pool[i] = append(c17Pool[i], c17Cert{owner: i, serial: s, cert: c, pub: p})
+				// a second, different certificate (fresh key pair) with the same owner and serial
+				c2, p2, err := c17Make(o.String(), s)
+				if err != nil {
+					continue
+				}
+				c17Pool[i] = append(c17Pool[i], c17Cert{owner: i, serial: s, cert: c, pub: p, cert2: c2, pub2: p2})
 			}
 		}
 	})
@@ -254,12 +261,17 @@ func TestVerif_C17(t *testing.T) {
 				if rapid.IntRange(0, 5).Draw(t, "foreignSigner") == 0 {
 					signer = (o + 1 + rapid.IntRange(0, 1).Draw(t, "other")) % 3
 				}
+				// sometimes the other certificate with the same owner and serial (e.g. after the first was revoked)
+				twin := rapid.IntRange(0, 3).Draw(t, "twinCertificate") == 0
+				if twin {
+					c.cert, c.pub = c.cert2, c.pub2
+				}
 				msg := types.MsgCreateCertificate{Owner: c17Owners[signer].String(), Cert: c.cert, Pubkey: c.pub}
 				vbErr := msg.ValidateBasic()
 				var err error
 				guard("CreateCertificate", func() { err = k.CreateCertificate(ctx, c17Owners[signer], c.cert, c.pub) })
 				kk := c17Key(o, c.serial)
-				logop("create(owner%d,serial=%s,signer=owner%d)->%v", o, c.serial, signer, err == nil)
+				logop("create(owner%d,serial=%s,signer=owner%d,twin=%v)->%v", o, c.serial, signer, twin, err == nil)
 				if signer != o {
 					if vbErr == nil || err == nil {
 						fail("c17-foreign-registration", "certificate naming owner%d was accepted for signer owner%d (ValidateBasic err=%v, keeper err=%v)", o, signer, vbErr, err)
